@@ -130,8 +130,30 @@ def binarySearch (v : List Nat) (x : Nat) : Except Nat Nat :=
   | some j => .ok j
   | none => .error (v.countP (· < x))
 
-/-- `SparseBinnedCoverage::get_region` (with the `index >= len → None` guard) -/
+/-- `SparseBinnedCoverage::get_region` (with the `index >= len → None` guard; `start.saturating_add(bin_size).min(end)` as repaired) -/
 def getRegion (regions : List Rec) (bin idx : Nat) : Out (Option Rec) :=
+  let al := accu regions bin
+  if idx ≥ al.2 then .ok none else
+  match binarySearch al.1 idx with
+  | .ok j =>
+    if j < al.2 then
+      match regions[j]? with
+      | some site => .ok (some ⟨site.chrom, site.start, min (satAdd site.start bin) site.stop⟩)
+      | none => .panic
+    else .ok none
+  | .error j =>
+    if j < 1 then .panic else       -- `j - 1` on usize
+    if j - 1 < al.2 then
+      match regions[j-1]?, al.1[j-1]? with
+      | some site, some prev =>
+        let start := site.start + (idx - prev) * bin
+        .ok (some ⟨site.chrom, start, min (satAdd start bin) site.stop⟩)
+      | _, _ => .panic
+    else .ok none
+
+/-- `get_region` with unbounded addition (what the saturating version computes for coordinates ≤ u64::MAX:
+`C06_getRegion_eq_ideal`) -/
+def getRegionIdeal (regions : List Rec) (bin idx : Nat) : Out (Option Rec) :=
   let al := accu regions bin
   if idx ≥ al.2 then .ok none else
   match binarySearch al.1 idx with
